@@ -5,6 +5,7 @@ import (
 	"fmt"
 	"io"
 	"log"
+	"math"
 	"runtime"
 	"strconv"
 	"strings"
@@ -225,9 +226,13 @@ func (p *parser) parseComparison() *proto.Query_Expression {
 
 	switch p.peek().typ {
 	case itemPlaceholder:
-		placeholder = decodePlaceholder(p.next().val)
-		if placeholder < 1 {
-			p.errorf("invalid placeholder %d; must be 1 or greater", placeholder)
+		placeholderItem := p.next()
+
+		var err error
+
+		placeholder, err = decodePlaceholder(placeholderItem.val)
+		if err != nil || placeholder < 1 {
+			p.errorf("invalid placeholder %s; must be a number between 1 and %d", placeholderItem.val, math.MaxInt32)
 		}
 	case itemValue:
 		value = decodeString(p.next().val)
@@ -263,13 +268,13 @@ func decodeString(s string) string {
 	return strings.ReplaceAll(s, `""`, `"`)
 }
 
-func decodePlaceholder(s string) int {
+func decodePlaceholder(s string) (int, error) {
 	if len(s) < 2 {
-		return 0
+		return 0, nil
 	}
 
-	i, _ := strconv.Atoi(s[1:])
-	return i
+	i, err := strconv.ParseInt(s[1:], 10, 32)
+	return int(i), err
 }
 
 func (p *parser) parseFieldList() []string {
